@@ -395,6 +395,7 @@ class ModelTrainer:
                 np_chunks=self.np_chunks,
                 np_chunks_path=self.train_np_chunks_path,
                 use_existing_chunks=self.use_existing_chunks,
+                edge_inds=self.edge_inds,
             )
             self.val_dataset = BottomUpDataset(
                 labels=val_labels,
@@ -408,6 +409,7 @@ class ModelTrainer:
                 np_chunks=self.np_chunks,
                 np_chunks_path=self.val_np_chunks_path,
                 use_existing_chunks=self.use_existing_chunks,
+                edge_inds=self.edge_inds,
             )
 
         elif self.model_type == "centered_instance":
